@@ -501,10 +501,13 @@ def _path_form(ctx, rule, f, local, who):
             continue
         for alt in prim.flatten_phi(o):
             names = [c.a["name"] for c in alt.call_nodes()]
-            gs = prim.dominating_guards(f, bb)
+            # the conditions under which this alternative is produced: at its own defining block (the alternatives of
+            # a value that flows through a join — an inlined helper's return — are produced in different branches)
+            abb = alt.strip().bb if alt.strip().bb is not None else bb
+            gs = prim.dominating_guards(f, abb)
             execdir = None
             for gd in gs:
-                pr = gd["pred"].strip()
+                pr = prim.expand_single_def_vars(f, gd["pred"]).strip()
                 if pr.k == "field" and pr.a == "exec_in_parent_dir":
                     execdir = gd["bool"]
             dot = [c.get("v") for c in alt.consts() if c.get("k") == "str"]
